@@ -115,6 +115,30 @@ def _one(t):
                         % (where, L, w.ret, total)))
         if out:
             break
+    if L == 0 and not out:
+        # a payload of 0 octets has no bytes to point to: a null payload pointer must give the same message
+        def args0():
+            return [Ptr(FC.PDU, 0), bpa.sym_arg('id', 32), bpa.NULL, 0, variant & B.mask(Wv)]
+        ws0 = bpa.analyse(mod, b['build'], lambda: (args0(), regs()), max_worlds=64, max_steps=800000, gcache=ctx.gcache)
+        oks0, err0 = FC.ok_worlds(ws0)
+        if err0:
+            nd = [w for w in ws0 if any(n[0] == 'null-deref' for n in w.notes)]
+            if nd:
+                out.append(('violation', key + ':null-payload', '%s: an empty payload given as (NULL, 0) dereferences the null '
+                            'pointer: %s' % (where, nd[0].reason)))
+            else:
+                out.append(('undecided', key + ':null-payload', '%s (empty payload as NULL, 0): %s' % (where, err0)))
+        for w in oks0:
+            with FC.with_world(w.decisions):
+                st, text = compare_image(w.regions[FC.PDU], exp, total)
+            if st != 'ok':
+                out.append((st, key + ':null-payload', '%s: empty payload given as (NULL, 0), %s: %s - a payload of 0 octets must '
+                            'build the same message whatever the pointer' % (where, 'FD' if variant else 'classic', text)))
+            elif b['returns_len'] and w.ret != total:
+                out.append(('violation', key + ':null-payload:ret', '%s: empty payload given as (NULL, 0): returns %r, the padded '
+                            'message has %d octets' % (where, w.ret, total)))
+            if out:
+                break
     if not out:
         n_ok += 3 if b['returns_len'] else 2
     # payload length read back
@@ -240,6 +264,8 @@ def run(ctx, tier, res, tag=''):
                                    'its entry value, nothing written beyond the padded message'}, limit=6)
     res.extra['lengths' + tag] = '0..64' if tier != 'thorough' else '0..max expressible by the 9-bit length field'
     res.extra['exhaustive'] = True
+    from .. import promises
+    promises.report(ctx, res, [v for b in BUILDERS.values() for v in b.values() if isinstance(v, str)], promises.MEMORY_KINDS, tag)
     res.rule = ('per (builder, payload length, variant): the final memory image over symbolic header, identifier, payload and trailing '
                 'memory must equal the reference ACF-CAN message computed from spec/formats.json; region is exact-extent so any access '
                 'beyond the padded message is reported; read-back, split sequence and finalise-alone are analysed as scripts')
